@@ -12,6 +12,7 @@ import (
 	"fmt"
 	"go/token"
 	"go/types"
+	"regexp"
 	"strings"
 
 	"golang.org/x/tools/go/ssa"
@@ -462,6 +463,8 @@ func (k *Keyer) callKey(c *ssa.Call) string {
 				}
 				return m
 			})
+			// `&[p0]->f` (the address of a spilled value parameter, dereferenced) is `p0.f`
+			ik = addrDerefRe.ReplaceAllString(ik, "$1.")
 			if unique {
 				ik += "@" + k.ids[c]
 			}
@@ -656,7 +659,6 @@ func (k *Keyer) fwdLoad(al *ssa.Alloc) bool {
 	return ok
 }
 
-
 // callKeyPrefix: the prefix of the key of a call of fn: its name, or -- when fn merely forwards to
 // another function of the module (forwardedCall) -- that function's name, as the Keyer renders it.
 func callKeyPrefix(p *Prog, fn *ssa.Function) string {
@@ -669,3 +671,5 @@ func callKeyPrefix(p *Prog, fn *ssa.Function) string {
 	}
 	return shorten(fn.String()) + "("
 }
+
+var addrDerefRe = regexp.MustCompile(`&\[(p\d+)\]->`)
